@@ -350,6 +350,10 @@ struct Extractor : RecursiveASTVisitor<Extractor> {
 			auto prt = pointeeRecordUq(e->getType());
 			if(!prt.empty()) J.attribute("prt", prt);
 			if(e->isLValue()) J.attribute("lv", true);
+			if(!e->getType().isNull() && e->getType()->isIntegralOrEnumerationType() && !e->getType()->isDependentType()) {
+				J.attribute("bits", (int64_t)ctx.getIntWidth(e->getType()));
+				J.attribute("sgn", e->getType()->isSignedIntegerOrEnumerationType());
+			}
 			if(!e->isValueDependent() && !e->isTypeDependent()
 					&& (e->getType()->isIntegralOrEnumerationType())
 					&& !e->isLValue()) {
